@@ -58,6 +58,9 @@ EVENTS = [
     ("cli-valid", "cli", (["m.mac", "-o", "out.bin", "--lst"], {"m.mac": P_VALID})),
     ("cli-make", "cli", (["m.mac", "--report-format", "bare", "-Wall"], {"m.mac": P_VALID + "\tclr @r0\nmake_raw \"r.raw\"\nmake_wav \"t.wav\", \"NAME\"\n"})),
     ("cli-error", "cli", (["m.mac", "-o", "out.bin", "--report-format", "bare"], {"m.mac": "\tnop\n\tclr undefsym\n\tbogus\n"})),
+    ("cli-w-overlap-1", "cli", (["m.mac", "-o", "o.bin", "-Wall", "-Wno-meta-typo", "-Wno-legacy-deferred", "--report-format", "bare"], {"m.mac": "\tword 5\n\tclr @r0\n\t.word\n"})),
+    ("cli-w-overlap-2", "cli", (["m.mac", "-o", "o.bin", "-Wno-meta-typo", "-Wno-default", "-Wall", "-Wno-excess-hash"], {"m.mac": "\tword 5\n\tclr @r0\n\t.word\n\temt #1\n"})),
+    ("cli-w-overlap-3", "cli", (["m.mac", "-o", "o.bin", "-Wmeta-typo", "-Wno-all", "-Wimplicit-operand"], {"m.mac": "\tword 5\n\tclr @r0\n\t.word\n"})),
     ("cli-critical", "cli", (["m.mac", "--implicit-bin"], {"m.mac": "\tnop\n\t.ascii \"abc\n"})),
 ]
 
@@ -100,7 +103,7 @@ def run_event(i):
             files[p] = hashlib.sha1(data.replace(co.root.encode(), b"<root>")).hexdigest()
         def clean(t):
             return t.replace(co.root, "<root>")
-        return {"exit": co.exit, "files": files, "stdout": clean(co.stdout.decode("utf-8", "replace")), "stderr_errors": clean(co.stderr).count("Error"),
+        return {"exit": co.exit, "files": files, "stdout": clean(co.stdout.decode("utf-8", "replace")), "stderr_errors": clean(co.stderr).count("Error"), "warnings": clean(co.stderr).count("Warning") + co.stdout.decode("utf-8", "replace").count(": Warning: "),
                 "internal": co.internal_error}
     finally:
         shutil.rmtree(co.root, ignore_errors=True)
